@@ -172,7 +172,8 @@ def run_unit(args):
     res["extracted"] = meta["extracted"]
     text = open(woven).read()
     lines = text.split("\n")
-    res["tags"] = sorted(set(m.group(1) for m in TAG.finditer(text)))
+    decl = re.search(r"^//@properties[ \t]+(.+)$", open(os.path.join(VERIF, "contracts", name + ".rs")).read(), re.M)
+    res["tags"] = sorted(set(decl.group(1).split())) if decl else sorted(set(m.group(1) for m in TAG.finditer(text)))
     res["tag_counts"] = {}
     for m in TAG.finditer(text):
         res["tag_counts"][m.group(1)] = res["tag_counts"].get(m.group(1), 0) + 1
@@ -332,6 +333,9 @@ def check_property(pid, tier, res):
     if pid == "C20":
         relevant = [u for u in relevant if u["cfg"] == "on" or u["status"] == "undecided"]
     undecided = [u for u in relevant if u["status"] == "undecided"]
+    if not [u for u in relevant if u["status"] != "undecided"]:
+        print(f"no unit carries obligations for {pid}", file=sys.stderr)
+        sys.exit(2)
     viol, known = [], []
     for u in relevant:
         for e in u["errors"]:
